@@ -9,7 +9,35 @@ Sub-checks
            probe vectors are allocated before and after the enumeration of a case and must give the same sizes (the allocation
            is a function of its arguments).
  alloc0    the same with zero costs in the alphabet (the statement's "including zeros"): reported under its own key
-           (open known finding: a zero-cost level with positive variance).
+           (open known finding: a zero-cost level with positive variance). In alloc and alloc0 the arrays handed over are
+           compared with copies after every call (the engine goes on using its vl, cl).
+ forms     ARGUMENT FORMS of the public functions: the same mathematical input in every legal form, same answer required.
+           alloc part - points: the lattice of vectors of length 0..3 over the WHOLE-NUMBER alphabets V = {0, 1, 3, 16, 200} x
+           C = {0.5, 1, 50} x rmse {0.5, 1, 2, 3} (sample sizes of a few units to a few thousand, where a rounding in the wrong
+           direction shows), and special points: exact ties of the rounding (the real-valued optimum is a whole number: V=[3],
+           C=[1], rmse 2 ...), an optimum below one path, everyday vectors, LONG vectors (51 = default maximum level and 300
+           levels; geometric, flat, periodic). Forms - variances: int64 / int32 / uint8 / uint16 / float32 arrays, read-only
+           array, strided view, list and tuple of floats / of ints, (1, n) row; costs: float32, read-only, strided, (1, n) row,
+           int64; rmse: Python int, np.float64, np.float32, np.int64, np.int32, 0-d array; the keyword call of
+           compute_mc_paths_giles. A form is applied where it holds the values exactly. quick: every form of one argument
+           with the others usual, the pairs {int64, uint8, list-int, float32} x {python-int, np.float64, 0-d} and six stated
+           triples (length 3: one argument at a time); thorough: the complete product of forms for lengths <= 2 and the
+           special points. Oracle: non-negative integer array of the right length; the sizes EQUAL those of the usual form
+           (float64 arrays, Python float) - if not, sum V/N <= budget decides the key; float32 forms (the library may compute
+           in single precision) are judged by the inequality only (1e-5); the argument objects are unchanged after the call;
+           the answer is unchanged after the caller overwrote the earlier answer and the earlier argument arrays. The usual
+           form itself is judged with tolerance 1e-9 (alloc: 1e-6). Array forms must be answered (raise = violation);
+           lenient forms (list / tuple / row, integer COSTS - the unchanged tree raises OverflowError on them) are counted when
+           the tree raises and judged when it answers.
+           stop part - ml in {0, 1, 2, 3, 4, 8}^3 preceded by nothing / one level, alpha {0.5, 1, 2}, rmse {1, 2, 4, 8} (exact ties
+           rem == tolerance included), forms of ml (integer dtypes, float32, read-only, strided, list / tuple of floats /
+           ints), of alpha and of rmse (as above): same verdict as the usual form (key says whether a bias estimate above
+           the tolerance is accepted), arguments unchanged.
+           engine part - ConvergenceRates / ConfigurationMultiLevel / Engine.price with their numbers as Python ints where
+           whole (rmse=1, alpha=2), as numpy scalars (np.int64 levels and paths, np.float64 rates and rmse), rmse as a 0-d
+           array; and the pricing run on copy.copy / copy.deepcopy / a dill round trip of the configuration after which the
+           ORIGINAL is re-parametrised through its public attributes: decay {0.6, 1, 2} x 5 kinds of rates x rmse {1, 0.2};
+           judge_run on every run and the same (L, Nl, converged, bias tests, weak rates) as in the usual form.
  budget    bias tolerance of the stopping test measured behaviourally: for alpha in {0.1, 0.25, 0.4, 0.5, 1, 2} the largest
            last-level mean the criterion accepts is found by bisection (ml = (x, x, x)), giving tol(alpha) = sup rem accepted /
            rmse; then tol^2 + share <= 1 + 1e-6.
@@ -36,20 +64,26 @@ Sub-checks
            given, all given through compute_convergence_rates(Blumenthal-Getoor index)} x level sd {1e-3 rmse (no extra samples), rmse (allocation passes)} x criteria {default, shared
            GilesConvergenceCriteria object, ConvergenceCriteria of the two Giles functions, criteria_run_to_maximum_level} x
            (initial_level, initial_mc_paths) {(2, 4), (3, 7)}. Thorough: maximum_level 6 and 8, both rmse and both sd on the
-           bumped profiles.
+           bumped profiles. Deepest hierarchy: maximum_level 50 (the default), plain profiles, run to the maximum level
+           (criteria_run_to_maximum_level) and with the Giles test, rates regressed / given.
  history   several pricings in ONE process (the statement quantifies over histories; the library's scripts price a list of
            rmse one after the other). First pricing: scenario {fast decay, slow decay, a rising level mean} x rates (4 kinds) x
            construction route of the rates {explicit object, DEFAULT ARGUMENT of ConfigurationMultiLevel (one instance shared
            by all configurations), None} x operation {price, for the default route also price_with_constant_mc_paths_and_level}.
            Later pricing: scenario {slow, fast with other maximum_level / initial paths, two rising means with another rmse} x
-           menu {same configuration object + new engine, same engine (coupling process re-assigned), deepcopy of the
-           configuration, new configuration through the default argument / None / explicit regressed / explicit alpha-only,
+           menu {same configuration object + new engine, same engine (coupling process re-assigned), deepcopy / copy.copy /
+           dill round trip of the configuration, deepcopy of the engine, new configuration through the default argument /
+           None / explicit regressed / explicit alpha-only,
            public attributes of the old configuration re-assigned (rates regressed / given / beta+gamma, criteria, levels,
            paths)}. Thorough: a third pricing from a reduced menu, two more scenarios each. Oracle: judge_run on every
            pricing, and (L, Nl, converged, sequence of bias tests, weak rates) of every pricing equals that of the SAME
            pricing run alone in fresh, explicitly constructed objects.
-Not covered: ConvergenceCriteria built from user functions other than the three of criteria.py; rmse outside the stated values;
-real coupling processes; initial_level < 2 (the bias test needs three levels: Engine.price raises IndexError there - the
+ In loop / profile / history / forms-engine the two functions of the criteria object are also watched for writing to the arrays
+ the engine hands them (vl, cl, ml: compared with copies after every call).
+Not covered: costs handed over as a Python LIST (annotated np.array; the unchanged tree answers it silently wrongly:
+`cl_zerocost[cl_zerocost == 0]` on a list is `cl_zerocost[False]`, i.e. the first cost becomes 1e30 - reported, not judged); zero
+costs in the forms sub-check (known finding, alloc0); boolean / complex / object arrays; ConvergenceCriteria built from user
+functions other than the three of criteria.py; rmse outside the stated values; real coupling processes; initial_level < 2 (the bias test needs three levels: Engine.price raises IndexError there - the
 statement is silent); initial_level > maximum_level; initial_mc_paths = 0; nb_of_processes > 1 (C08).
 """
 from __future__ import annotations
@@ -66,7 +100,9 @@ from mc import mlmc_driver as D
 PID = "C06"
 LEVEL = "model_checking"
 RULE = (
-    "alloc: complete product of variance/cost alphabets for vector lengths 1..5 x 3 rmse; rays: every direction of the stated "
+    "alloc: complete product of variance/cost alphabets for vector lengths 1..5 x 3 rmse; forms: every point of the stated "
+    "whole-number lattices and special points x every stated combination of argument forms (thorough: complete product of "
+    "forms); rays: every direction of the stated "
     "lattice x alpha x rmse; loop: every configuration of the C05 lattice x every regime sequence with at most D deviations; "
     "profile: every scripted level-mean profile of the stated alphabet x options; history: every sequence of 2 (thorough: 3) "
     "pricings of the stated scenario x route menu; one evaluation = one complete run of the real Engine.price (or one call "
@@ -101,6 +137,7 @@ def cases(tier):
     out.append({"sub": "budget"})
     out.append({"sub": "shape"})
     out.append({"sub": "rays"})
+    out += forms_cases(tier)
     out += profile_cases(tier)
     out += history_cases(tier)
     for c in C5.cases(tier):
@@ -111,7 +148,7 @@ def cases(tier):
 
 def check_case(sh, case):
     {"alloc": _alloc, "budget": _budget, "shape": _shape, "rays": _rays, "loop": _loop, "profile": _profile,
-     "history": _history}[case["sub"]](sh, case)
+     "history": _history, "forms": _forms}[case["sub"]](sh, case)
 
 
 def _criteria():
@@ -155,9 +192,14 @@ def _alloc(sh, case):
             cl = np.array(ct, dtype=float)
             for rmse in RMSES:
                 sh.count("evaluations")
+                a_v, a_c = vl.copy(), cl.copy()
                 with np.errstate(all="ignore"):
-                    N = np.asarray(crit.compute_mc_paths(rmse, vl.copy(), cl.copy()))
+                    N = np.asarray(crit.compute_mc_paths(rmse, a_v, a_c))
                 zc = "zero-cost-level" if 0.0 in ct else "positive-costs"
+                if not (np.array_equal(a_v, vl) and np.array_equal(a_c, cl)):  # the engine goes on using its vl, cl
+                    sh.violation(f"C06:alloc:argument-array-modified:{zc}",
+                                 f"compute_mc_paths({rmse}, {vl.tolist()}, {cl.tolist()}) left vl={a_v.tolist()}, cl={a_c.tolist()} in the "
+                                 f"caller's arrays", None)
                 if N.shape != vl.shape or not np.issubdtype(N.dtype, np.integer) or np.any(N < 0):
                     sh.violation(f"C06:alloc:sample-sizes-not-non-negative-integers:{zc}",
                                  f"compute_mc_paths({rmse}, {vl.tolist()}, {cl.tolist()}) = {N.tolist()}", None)
@@ -313,16 +355,23 @@ def observe_price(eng, product, rmse, op="price"):
     import warnings
 
     crit = eng.configuration.convergence_criteria
-    calls = {"criteria": [], "paths": []}
+    calls = {"criteria": [], "paths": [], "modified": []}
     orig_criteria, orig_paths = crit.criteria, crit.compute_mc_paths
 
     def criteria(alpha, ml, rmse_):
+        given = np.array(ml, dtype=float)
         r = orig_criteria(alpha, ml, rmse_)
-        calls["criteria"].append((float(alpha), np.array(ml, dtype=float).tolist(), bool(r)))
+        if not np.array_equal(given, np.asarray(ml, dtype=float), equal_nan=True):
+            calls["modified"].append(("criteria", "ml", given.tolist(), np.asarray(ml, dtype=float).tolist()))
+        calls["criteria"].append((float(alpha), given.tolist(), bool(r)))
         return r
 
     def compute_mc_paths(rmse_, vl, cl):
+        given = (np.array(vl, dtype=float), np.array(cl, dtype=float))
         r = orig_paths(rmse_, vl, cl)
+        for name, g, now in (("vl", given[0], vl), ("cl", given[1], cl)):
+            if not np.array_equal(g, np.asarray(now, dtype=float), equal_nan=True):
+                calls["modified"].append(("compute_mc_paths", name, g.tolist(), np.asarray(now, dtype=float).tolist()))
         calls["paths"].append(np.asarray(r).tolist())
         return r
 
@@ -351,6 +400,10 @@ def judge_run(sh, sub, suffix, obs, rec, *, Lmax, rmse, rates, alpha_given):
     if obs["outcome"] == "horizon":
         sh.violation(f"C06:{sub}:no-termination-within-horizon{suffix}",
                      f"run still simulating after {C5.HORIZON} batches at one level", {"regimes": regimes[:40]})
+    # the two functions of the criteria object read the engine's arrays (the engine goes on using them): they must not write
+    for (fn, name, given, now) in calls.get("modified", [])[:1]:
+        sh.violation(f"C06:{sub}:criteria-object-wrote-to-the-argument-array-of-the-engine:{fn}:{name}{suffix}",
+                     f"{fn} was handed {name}={given} and left {now} in the caller's array", {"regimes": regimes[:40]})
     # never above the configured maximum
     top_sim = max(rec.simulate_levels) if rec.simulate_levels else 0
     top_next = max(rec.next_level_calls) if rec.next_level_calls else 0
@@ -518,11 +571,34 @@ class LevelChooser:
         return min(lvl, arity - 1)
 
 
-def scenario(a, mult=None, *, rates="regressed", rmse=0.2, sd=1e-3, L0=2, Lmax=6, N0=4, crit="default", c=0.5):
+def scenario(a, mult=None, *, rates="regressed", rmse=0.2, sd=1e-3, L0=2, Lmax=6, N0=4, crit="default", c=0.5, form=None):
     """JSON-able description of one pricing: level means c 2^(-a l) mult_l, level standard deviations sd rmse 2^(-l/2),
-    cost 2^l per sample, and the public options of the configuration."""
-    return {"a": a, "mult": {str(k): v for k, v in (mult or {}).items()}, "c": c, "rates": rates, "rmse": rmse, "sd": sd,
-            "L0": L0, "Lmax": Lmax, "N0": N0, "crit": crit, "alpha_given": (1.0 - bg_index(a) / 2.0) if rates == "bg-index" else a}
+    cost 2^l per sample, and the public options of the configuration. form (ENGINE_FORMS): the form in which the numbers
+    reach the public entry points, or the copy of the configuration that is priced (see in_form / price_step)."""
+    sc = {"a": a, "mult": {str(k): v for k, v in (mult or {}).items()}, "c": c, "rates": rates, "rmse": rmse, "sd": sd,
+          "L0": L0, "Lmax": Lmax, "N0": N0, "crit": crit, "alpha_given": (1.0 - bg_index(a) / 2.0) if rates == "bg-index" else a}
+    if form is not None:
+        sc["form"] = form
+    return sc
+
+
+NUMBER_FORMS = ["python-int", "numpy-scalar", "zero-d-rmse"]
+COPY_FORMS = ["copy-configuration", "deepcopy-configuration", "dill-configuration"]
+ENGINE_FORMS = NUMBER_FORMS + COPY_FORMS
+
+
+def in_form(x, form, integer=False, is_rmse=False):
+    """The number x as the given form hands it to the library: python-int = an int where the value is whole (rmse=1, alpha=2);
+    numpy-scalar = np.int64 for levels / paths, np.float64 otherwise; zero-d-rmse = the rmse as a 0-d array."""
+    if x is None or form is None:
+        return x
+    if form == "python-int":
+        return int(x) if float(x).is_integer() else x
+    if form == "numpy-scalar":
+        return np.int64(x) if integer else np.float64(x)
+    if form == "zero-d-rmse" and is_rmse:
+        return np.array(float(x))
+    return x
 
 
 def level_regimes(sc):
@@ -531,17 +607,18 @@ def level_regimes(sc):
              sc["sd"] * sc["rmse"] * 2.0 ** (-0.5 * l), False, False) for l in range(n)]
 
 
-def make_rates(kind, alpha):
+def make_rates(kind, alpha, form=None):
     from rpylib.montecarlo.configuration import ConvergenceRates, compute_convergence_rates
 
+    f = lambda x: in_form(x, form)  # noqa: E731
     if kind == "bg-index":
-        return compute_convergence_rates(2.0 - 2.0 * alpha)
+        return compute_convergence_rates(f(2.0 - 2.0 * alpha))
     if kind == "given":
-        return ConvergenceRates(alpha=alpha, beta=1.0, gamma=1.0)
+        return ConvergenceRates(alpha=f(alpha), beta=f(1.0), gamma=f(1.0))
     if kind == "alpha-only":
-        return ConvergenceRates(alpha=alpha)
+        return ConvergenceRates(alpha=f(alpha))
     if kind == "alpha-regressed":
-        return ConvergenceRates(beta=1.0, gamma=1.0)
+        return ConvergenceRates(beta=f(1.0), gamma=f(1.0))
     return ConvergenceRates()
 
 
@@ -558,18 +635,22 @@ def make_criteria(kind):
 
 
 FIRST_ROUTES = ["explicit", "default", "none"]  # how ConfigurationMultiLevel gets its convergence rates
-LATER_ROUTES = ["same-config", "same-engine", "deepcopy", "setters"]  # how a later pricing re-uses the earlier objects
+# how a later pricing re-uses the earlier objects; the INHERITING routes keep the options of the earlier configuration
+INHERITING = ("same-config", "same-engine", "deepcopy", "copy", "dill", "engine-deepcopy")
+LATER_ROUTES = list(INHERITING) + ["setters"]
 
 
 def make_configuration(sc, route):
     from rpylib.montecarlo.configuration import ConfigurationMultiLevel
 
-    kw = dict(initial_level=sc["L0"], maximum_level=sc["Lmax"], initial_mc_paths=sc["N0"], seed=None, nb_of_processes=1)
+    form = sc.get("form")
+    kw = dict(initial_level=in_form(sc["L0"], form, integer=True), maximum_level=in_form(sc["Lmax"], form, integer=True),
+              initial_mc_paths=in_form(sc["N0"], form, integer=True), seed=None, nb_of_processes=1)
     crit = make_criteria(sc["crit"])
     if crit is not None:
         kw["convergence_criteria"] = crit
     if route == "explicit":
-        kw["convergence_rates"] = make_rates(sc["rates"], sc["alpha_given"])
+        kw["convergence_rates"] = make_rates(sc["rates"], sc["alpha_given"], form)
     elif route == "none":
         kw["convergence_rates"] = None
     elif route != "default":
@@ -579,11 +660,17 @@ def make_configuration(sc, route):
 
 def effective(sc, route, prev_sc):
     """The scenario a later pricing really runs: a route that re-uses the earlier configuration keeps its options."""
-    if prev_sc is not None and route in ("same-config", "same-engine", "deepcopy"):
+    if prev_sc is not None and route in INHERITING:
         return dict(sc, **{k: prev_sc[k] for k in ("rates", "alpha_given", "L0", "Lmax", "N0", "crit")})
     if route in ("default", "none"):
         return dict(sc, rates="regressed")
     return dict(sc)
+
+
+def _dill_round_trip(obj):
+    import dill
+
+    return dill.loads(dill.dumps(obj))
 
 
 def price_step(sh, sub, suffix, sc, route, prev=None, op="price"):
@@ -601,11 +688,32 @@ def price_step(sh, sub, suffix, sc, route, prev=None, op="price"):
     coupling = D.ScriptedCoupling(rec, df=1.0)
     product = D.make_product("forward", notional=1.0)
     if route in FIRST_ROUTES:
-        eng = Engine(configuration=make_configuration(sc, route), coupling_process=coupling)
+        conf = make_configuration(sc, route)
+        if sc.get("form") in COPY_FORMS:
+            # the pricing runs on a copy of the configuration; the original is re-parametrised afterwards through its public
+            # attributes (objects re-assigned, nothing shared is mutated): the copy must not follow
+            from rpylib.montecarlo.multilevel import criteria as K
+
+            orig = conf
+            conf = {"copy-configuration": copy.copy, "deepcopy-configuration": copy.deepcopy,
+                    "dill-configuration": _dill_round_trip}[sc["form"]](orig)
+            orig.convergence_rates = ConvergenceRates(alpha=3.0, beta=1.0, gamma=1.0)
+            orig.convergence_criteria = K.ConvergenceCriteria(criteria=K.criteria_run_to_maximum_level,
+                                                              compute_mc_paths=K.compute_mc_paths_giles)
+            orig.maximum_level = orig.initial_level
+            orig.initial_mc_paths = 1
+        eng = Engine(configuration=conf, coupling_process=coupling)
     elif route == "same-config":
         eng = Engine(configuration=prev_eng.configuration, coupling_process=coupling)
     elif route == "deepcopy":
         eng = Engine(configuration=copy.deepcopy(prev_eng.configuration), coupling_process=coupling)
+    elif route == "copy":
+        eng = Engine(configuration=copy.copy(prev_eng.configuration), coupling_process=coupling)
+    elif route == "dill":
+        eng = Engine(configuration=_dill_round_trip(prev_eng.configuration), coupling_process=coupling)
+    elif route == "engine-deepcopy":
+        eng = copy.deepcopy(prev_eng)
+        eng.coupling_process = coupling
     elif route == "same-engine":
         eng = prev_eng
         eng.coupling_process = coupling
@@ -617,7 +725,7 @@ def price_step(sh, sub, suffix, sc, route, prev=None, op="price"):
         eng = Engine(configuration=conf, coupling_process=coupling)
     else:
         raise ValueError(route)
-    obs = observe_price(eng, product, sc["rmse"], op=op)
+    obs = observe_price(eng, product, in_form(sc["rmse"], sc.get("form"), is_rmse=True), op=op)
     sh.count("runs")
     if op != "price":
         top = max(rec.simulate_levels) if rec.simulate_levels else 0
@@ -714,7 +822,7 @@ def later_steps(prev_sc, seconds, menu):
     out = []
     for sc in seconds:
         for route, rates in menu:
-            if route in ("same-config", "same-engine", "deepcopy"):
+            if route in INHERITING:
                 out.append((dict(sc), route, "price"))
             elif route in ("default", "none"):
                 out.append((dict(sc, rates="regressed"), route, "price"))
@@ -734,10 +842,11 @@ def histories(case):
     return out
 
 
-SECOND_MENU = [("same-config", None), ("same-engine", None), ("deepcopy", None), ("default", None), ("none", None),
+SECOND_MENU = [("same-config", None), ("same-engine", None), ("deepcopy", None), ("copy", None), ("dill", None),
+               ("engine-deepcopy", None), ("default", None), ("none", None),
                ("explicit", "regressed"), ("setters", "regressed"), ("setters", "given"), ("explicit", "alpha-only"),
                ("setters", "alpha-regressed")]
-THIRD_MENU = [("same-config", None), ("same-engine", None), ("default", None), ("setters", "regressed")]
+THIRD_MENU = [("same-config", None), ("same-engine", None), ("dill", None), ("default", None), ("setters", "regressed")]
 
 
 def history_scenarios(thorough):
@@ -753,6 +862,9 @@ def history_scenarios(thorough):
 def profile_cases(tier):
     thorough = tier == "thorough"
     out = []
+    for a in DECAYS:  # the deepest configured hierarchy: the default maximum_level 50, run to the end and with the stopping test
+        out.append({"sub": "profile", "a": a, "first": None, "Lmax": 50, "doubles": "none", "rmses": [0.2, 1.0] if thorough else [0.2],
+                    "rates": ["regressed", "given"], "sds": [1.0], "crits": ["to-max", "default"], "starts": [[2, 4]]})
     for Lmax in ((6, 8) if thorough else (6,)):
         for a in DECAYS:
             out.append({"sub": "profile", "a": a, "first": None, "Lmax": Lmax, "doubles": "none", "rmses": [0.05, 0.2, 1.0],
@@ -776,3 +888,376 @@ def history_cases(tier):
                                 "menu": SECOND_MENU, "thirds": seconds[:2] if thorough else [], "menu3": THIRD_MENU,
                                 "sample": sc["a"] == 2.0 and rates == "regressed" and route1 == "default" and op1 == "price"})
     return out
+
+
+# ----------------------------------------------------------------------------------------------------------------------
+# forms: the same mathematical input handed over in every legal form of the arguments
+# ----------------------------------------------------------------------------------------------------------------------
+
+USUAL = "usual"  # float64 array / Python float: what the engine passes and what every other sub-check uses
+INT_DTYPES = ["int64", "int32", "uint8", "uint16"]
+# forms of a vector argument. Array forms are what the signatures annotate (np.array): they must be answered. LENIENT forms
+# (sequences, a (1, n) row, integer-typed costs, which the unchanged tree rejects): a tree that raises on them is not judged
+# (counted), a tree that answers is judged like for any other form.
+VECTOR_FORMS = INT_DTYPES + ["float32", "read-only", "strided", "list-float", "list-int", "tuple-float", "tuple-int", "row-1xn"]
+LENIENT_VECTOR_FORMS = ("list-float", "list-int", "tuple-float", "tuple-int", "row-1xn")
+COST_FORMS = ["float32", "read-only", "strided", "row-1xn", "int64"]
+LENIENT_COST_FORMS = ("row-1xn", "int64")
+MEAN_FORMS = INT_DTYPES + ["float32", "read-only", "strided", "list-float", "list-int", "tuple-float", "tuple-int"]
+LENIENT_MEAN_FORMS = ("list-float", "list-int", "tuple-float", "tuple-int")
+SCALAR_FORMS = ["python-int", "np.float64", "np.float32", "np.int64", "np.int32", "zero-d-array"]
+
+W_V = [0.0, 1.0, 3.0, 16.0, 200.0]  # whole numbers: every integer dtype can hold them; sample sizes of a few units to a few thousand
+W_C = [0.5, 1.0, 50.0]
+W_RMSE = [0.5, 1.0, 2.0, 3.0]
+W_ML = [0.0, 1.0, 2.0, 3.0, 4.0, 8.0]
+W_ALPHA = [0.5, 1.0, 2.0]
+W_STOP_RMSE = [1.0, 2.0, 4.0, 8.0]
+
+
+def vector_form(values, form):
+    """The vector `values` in the given form, or None when the form cannot hold these values exactly."""
+    base = np.array(values, dtype=float)
+    whole = bool(np.all(base == np.floor(base))) and bool(np.all(np.abs(base) < 2.0 ** 53))
+    if form == USUAL:
+        return base
+    if form in INT_DTYPES:
+        info = np.iinfo(form)
+        if not whole or (base.size and (base.min() < info.min or base.max() > info.max)):
+            return None
+        return base.astype(form)
+    if form == "float32":
+        with np.errstate(all="ignore"):
+            x = base.astype(np.float32)
+        return x if np.array_equal(x.astype(float), base) else None
+    if form == "read-only":
+        x = base.copy()
+        x.setflags(write=False)
+        return x
+    if form == "strided":  # a view of every second element of a longer buffer
+        buf = np.full(2 * len(base) + 1, 7.0)
+        x = buf[: 2 * len(base): 2]
+        x[...] = base
+        return x
+    if form in ("list-float", "tuple-float"):
+        x = [float(v) for v in base]
+        return x if form == "list-float" else tuple(x)
+    if form in ("list-int", "tuple-int"):
+        if not whole:
+            return None
+        x = [int(v) for v in base]
+        return x if form == "list-int" else tuple(x)
+    if form == "row-1xn":
+        return base.reshape(1, -1)
+    raise ValueError(form)
+
+
+def scalar_form(x, form):
+    """The number x in the given form, or None when the form cannot hold it exactly."""
+    x = float(x)
+    if form == USUAL:
+        return x
+    if form in ("python-int", "np.int64", "np.int32"):
+        if not x.is_integer() or abs(x) >= 2.0 ** 31:
+            return None
+        return int(x) if form == "python-int" else getattr(np, form[3:])(int(x))
+    if form == "np.float64":
+        return np.float64(x)
+    if form == "np.float32":
+        y = np.float32(x)
+        return y if float(y) == x else None
+    if form == "zero-d-array":
+        return np.array(x)
+    raise ValueError(form)
+
+
+def _snapshot(obj):
+    import copy
+
+    return obj.copy() if isinstance(obj, np.ndarray) else copy.deepcopy(obj)
+
+
+def _unchanged(obj, snap):
+    if isinstance(obj, np.ndarray):
+        return obj.dtype == snap.dtype and obj.shape == snap.shape and bool(np.array_equal(obj, snap))
+    return type(obj) is type(snap) and bool(obj == snap)
+
+
+def _label(**forms):
+    """Stable input class of a combination of forms: the arguments that are not in the usual form."""
+    return "+".join(f"{k}-{v}" for k, v in forms.items() if v != USUAL) or "usual-form"
+
+
+def form_combos(first, second, third, full, pairs, extra):
+    """quick: every form of one argument with the other two usual, the stated pairs (first x third) and the stated triples;
+    thorough (full): the complete product."""
+    if full:
+        return [(a, b, c) for a in [USUAL] + first for b in [USUAL] + second for c in [USUAL] + third if (a, b, c) != (USUAL,) * 3]
+    out = [(a, USUAL, USUAL) for a in first] + [(USUAL, b, USUAL) for b in second] + [(USUAL, USUAL, c) for c in third]
+    out += [(a, USUAL, c) for a in pairs[0] for c in pairs[1]]
+    return out + [tuple(e) for e in extra]
+
+
+def forms_cases(tier):
+    thorough = tier == "thorough"
+    out = [{"sub": "forms", "part": "alloc", "points": "special", "full": thorough}]
+    for n in (0, 1, 2):
+        out.append({"sub": "forms", "part": "alloc", "points": "lattice", "n": n, "rmse": None, "full": thorough})
+    for r in range(len(W_RMSE)):
+        out.append({"sub": "forms", "part": "alloc", "points": "lattice", "n": 3, "rmse": r, "full": False, "single": not thorough})
+    for a in range(len(W_ALPHA)):
+        out.append({"sub": "forms", "part": "stop", "alpha": a, "full": False})
+    if thorough:
+        out.append({"sub": "forms", "part": "stop", "alpha": None, "full": True, "letters": [0.0, 1.0, 3.0, 8.0]})
+    for a in DECAYS:
+        out.append({"sub": "forms", "part": "engine", "a": a, "rmses": [1.0, 0.2], "sds": [1e-3, 1.0] if thorough else [1.0],
+                    "rates": PROFILE_RATE_KINDS, "starts": [[2, 4], [3, 7]] if thorough else [[2, 4]]})
+    return out
+
+
+def _forms(sh, case):
+    {"alloc": _forms_alloc, "stop": _forms_stop, "engine": _forms_engine}[case["part"]](sh, case)
+
+
+def alloc_form_points(case):
+    """(variances, costs, rmse) of an allocation case. special: exact ties of the rounding (the real-valued optimum is a whole
+    number), an optimum below one path, the vectors of a few everyday calls, and long vectors (51 = the default maximum level,
+    300 levels; geometric and flat)."""
+    if case["points"] == "special":
+        pts = [([3.0], [1.0], 2.0), ([12.0], [1.0], 2.0), ([48.0], [1.0], 2.0), ([27.0], [1.0], 3.0), ([3.0, 3.0], [1.0, 1.0], 2.0),
+               ([3.0, 12.0], [4.0, 1.0], 2.0), ([900.0, 1.0, 1.0], [1.0, 50.0, 5000.0], 3.0), ([16.0, 4.0, 1.0], [1.0, 2.0, 4.0], 0.5),
+               ([16.0, 4.0, 1.0], [1.0, 2.0, 4.0], 1.0), ([100.0, 9.0, 2.0, 1.0], [1.0, 3.0, 9.0, 27.0], 0.25),
+               ([400.0, 25.0, 3.0, 0.0], [0.5, 1.0, 2.0, 4.0], 2.0), ([7.0, 5.0, 3.0, 2.0, 1.0], [1.0, 2.0, 4.0, 8.0, 16.0], 0.5),
+               ([1.0, 0.0, 0.0, 1.0], [1.0, 2.0, 4.0, 8.0], 1.0), ([65535.0, 255.0, 1.0], [1.0, 2.0, 4.0], 8.0)]
+        for n in (51, 300):
+            for rmse in (1.0, 0.5):
+                pts.append(([64.0 * 2.0 ** -l for l in range(n)], [2.0 ** l for l in range(n)], rmse))
+            pts.append(([3.0] * n, [1.0] * n, 3.0))
+            pts.append(([float(l % 4) for l in range(n)], [1.0 + (l % 3) for l in range(n)], 2.0))
+        return pts
+    n = case["n"]
+    rmses = W_RMSE if case["rmse"] is None else [W_RMSE[case["rmse"]]]
+    return [(list(vt), list(ct), rmse) for vt in itertools.product(W_V, repeat=n) for ct in itertools.product(W_C, repeat=n)
+            for rmse in rmses]
+
+
+def _variance_of(vl0, N):
+    with np.errstate(all="ignore"):
+        return float(np.sum(np.where(vl0 == 0.0, 0.0, vl0 / np.asarray(N, dtype=float))))
+
+
+def _forms_alloc(sh, case):
+    import warnings
+
+    from rpylib.montecarlo.multilevel import criteria as K
+
+    crit = _criteria()
+    tol = bias_tolerance(crit, 1.0)
+    share = 1.0 - (tol if tol is not None else 0.0) ** 2
+    combos = form_combos(VECTOR_FORMS, COST_FORMS, SCALAR_FORMS, case["full"],
+                         (("int64", "uint8", "list-int", "float32"), ("python-int", "np.float64", "zero-d-array")),
+                         [("float32", "float32", "np.float32"), ("row-1xn", "row-1xn", USUAL), ("int32", "read-only", "np.int64"),
+                          ("read-only", "read-only", USUAL), ("strided", "strided", "python-int"), ("tuple-int", "strided", "np.int32")])
+    if case.get("single"):  # the long product of the quick tier: one argument at a time only
+        combos = [c for c in combos if sum(f != USUAL for f in c) == 1]
+    worst, answers = 0.0, set()
+
+    def call(f, *a, **kw):
+        with np.errstate(all="ignore"), warnings.catch_warnings():
+            warnings.simplefilter("ignore")
+            return f(*a, **kw)
+
+    def well_formed(N, n, row=False):
+        return (isinstance(N, np.ndarray) and np.issubdtype(N.dtype, np.integer) and (N.shape == (n,) or (row and N.shape == (1, n)))
+                and not np.any(N < 0))
+
+    for vt, ct, rmse in alloc_form_points(case):
+        n = len(vt)
+        vl0, cl0 = np.array(vt, dtype=float), np.array(ct, dtype=float)
+        size = "one-level" if n == 1 else "no-level" if n == 0 else "long-vector" if n > 5 else "short-vector"
+        budget = share * rmse ** 2
+        sh.count("evaluations")
+        a_v, a_c = vl0.copy(), cl0.copy()
+        N0 = np.asarray(call(crit.compute_mc_paths, rmse, a_v, a_c))
+        if not well_formed(N0, n):
+            sh.violation(f"C06:forms:alloc:sample-sizes-not-non-negative-integers:usual-form:{size}",
+                         f"compute_mc_paths({rmse}, {vt}, {ct}) = {N0!r}", None)
+            continue
+        keep = N0.copy()
+        est0 = _variance_of(vl0, N0)
+        worst = max(worst, est0 / budget)
+        answers.add(tuple(keep.tolist()[:6]))
+        if not (est0 <= budget * (1 + 1e-9)):
+            sh.violation(f"C06:forms:alloc:estimator-variance-exceeds-variance-share:usual-form:{size}",
+                         f"rmse={rmse}, vl={vt[:8]}, cl={ct[:8]} ({n} levels): N={keep.tolist()[:8]}, sum V/N = {est0:.9g} > "
+                         f"{share:.6g} rmse^2 = {budget:.9g}", {"share": share})
+        if not (np.array_equal(a_v, vl0) and np.array_equal(a_c, cl0)):
+            sh.violation("C06:forms:alloc:argument-array-modified:usual-form",
+                         f"compute_mc_paths({rmse}, {vt[:8]}, {ct[:8]}) left vl={a_v.tolist()[:8]}, cl={a_c.tolist()[:8]}", None)
+        # the answer belongs to the caller and the arguments stay the caller's: writing to them afterwards must not show in the
+        # next answer (no buffer handed out twice, no reference kept)
+        try:
+            N0[...] = -7
+        except ValueError:
+            pass
+        a_v *= 3.0
+        a_c += 1.0
+        again = np.asarray(call(crit.compute_mc_paths, rmse, vl0.copy(), cl0.copy()))
+        if not (again.shape == keep.shape and np.array_equal(again, keep)):
+            sh.violation("C06:forms:alloc:answer-changes-after-the-caller-wrote-to-the-earlier-answer-and-arguments",
+                         f"compute_mc_paths({rmse}, {vt[:8]}, {ct[:8]}) = {keep.tolist()[:8]} first, {again.tolist()[:8]} after the caller "
+                         f"overwrote the returned array and the argument arrays of the first call", None)
+        # the keyword form of the module's function (a tree with other parameter names is not judged)
+        try:
+            kwN = np.asarray(call(K.compute_mc_paths_giles, rmse=rmse, vl=vl0.copy(), cl=cl0.copy()))
+            sh.count("evaluations")
+            if not (kwN.shape == keep.shape and np.array_equal(kwN, keep)):
+                sh.violation("C06:forms:alloc:sample-sizes-differ-from-the-usual-form:keyword-call",
+                             f"compute_mc_paths_giles(rmse={rmse}, vl={vt[:8]}, cl={ct[:8]}) = {kwN.tolist()[:8]}, positional through the "
+                             f"criteria object {keep.tolist()[:8]}", None)
+        except TypeError:
+            sh.count("form_rejected_by_the_tree:keyword-call")
+        for vf, cf, rf in combos:
+            v, c, r = vector_form(vt, vf), vector_form(ct, cf), scalar_form(rmse, rf)
+            if v is None or c is None or r is None:
+                sh.count("form_cannot_hold_the_values")
+                continue
+            label = _label(variances=vf, costs=cf, rmse=rf)
+            lenient = vf in LENIENT_VECTOR_FORMS or cf in LENIENT_COST_FORMS
+            snaps = (_snapshot(v), _snapshot(c), _snapshot(r))
+            try:
+                N = call(crit.compute_mc_paths, r, v, c)
+            except Exception as e:  # noqa: BLE001
+                if lenient:
+                    sh.count("form_rejected_by_the_tree:" + label)
+                else:
+                    sh.violation(f"C06:forms:alloc:raises:{label}",
+                                 f"compute_mc_paths({r!r}, {v!r}, {c!r}) raises {type(e).__name__}: {e}; the usual form gives "
+                                 f"{keep.tolist()[:8]}", None)
+                continue
+            sh.count("evaluations")
+            sh.cls("forms:alloc:" + label)
+            N = np.asarray(N)
+            if not well_formed(N, n, row="row-1xn" in (vf, cf)):
+                sh.violation(f"C06:forms:alloc:sample-sizes-not-non-negative-integers:{label}",
+                             f"compute_mc_paths({r!r}, {v!r}, {c!r}) = {N!r}", None)
+                continue
+            Nr = N.ravel()
+            if not np.array_equal(Nr, keep):
+                # float32 arguments: the library may legitimately compute in single precision (another rounding of the optimum)
+                single = "float32" in (vf, cf) or rf == "np.float32"
+                est = _variance_of(vl0, Nr)
+                if not (est <= budget * (1 + (1e-5 if single else 1e-9))):
+                    sh.violation(f"C06:forms:alloc:estimator-variance-exceeds-variance-share:{label}",
+                                 f"compute_mc_paths({r!r}, {v!r}, {c!r}) = {Nr.tolist()[:8]}: sum V/N = {est:.9g} > {share:.6g} rmse^2 = "
+                                 f"{budget:.9g}; the usual form (float64 arrays, float rmse) gives {keep.tolist()[:8]}", {"share": share})
+                elif not single:
+                    sh.violation(f"C06:forms:alloc:sample-sizes-differ-from-the-usual-form:{label}",
+                                 f"compute_mc_paths({r!r}, {v!r}, {c!r}) = {Nr.tolist()[:8]}; the usual form gives {keep.tolist()[:8]}", None)
+                else:
+                    sh.count("single_precision_answer_differs_within_budget")
+            if not (_unchanged(v, snaps[0]) and _unchanged(c, snaps[1]) and _unchanged(r, snaps[2])):
+                sh.violation(f"C06:forms:alloc:argument-array-modified:{label}",
+                             f"compute_mc_paths was handed ({snaps[2]!r}, {snaps[0]!r}, {snaps[1]!r}) and left ({r!r}, {v!r}, {c!r})", None)
+    sh.outcome((case["points"], case.get("n"), case.get("rmse"), round(worst, 9), len(answers)))
+    sh.states += len(answers)
+    if len(answers) >= 2 or case.get("n") == 0:
+        sh.nontriv()
+    if case["points"] == "special":
+        sh.sample({"sub": "forms", "part": "alloc", "combinations_of_forms": len(combos), "worst_ratio_to_budget": worst})
+
+
+def _forms_stop(sh, case):
+    crit = _criteria()
+    share = variance_share(crit)
+    left = math.sqrt(max(0.0, 1.0 - share))
+    combos = form_combos(MEAN_FORMS, SCALAR_FORMS, SCALAR_FORMS, case["full"],
+                         (("int64", "uint8", "list-int", "float32"), ("python-int", "np.float64", "zero-d-array")),
+                         [("list-int", "python-int", "python-int"), ("tuple-int", "python-int", "python-int"),
+                          ("int64", "np.int64", "np.int64"), ("int32", "np.int32", "np.int32"), ("int64", "python-int", "python-int"),
+                          ("float32", "np.float32", "np.float32"), ("uint8", "python-int", USUAL), ("read-only", "zero-d-array", "zero-d-array")])
+    letters = case.get("letters") or W_ML
+    alphas = W_ALPHA if case["alpha"] is None else [W_ALPHA[case["alpha"]]]
+    accepted = 0
+    for alpha in alphas:
+        for rmse in W_STOP_RMSE:
+            for lead in ((), (9.0,)):
+                for m3 in itertools.product(letters, repeat=3):
+                    mt = list(lead + m3)
+                    ml0 = np.array(mt, dtype=float)
+                    sh.count("evaluations")
+                    given = ml0.copy()
+                    usual = bool(crit.criteria(alpha, given, rmse))
+                    accepted += usual
+                    if not np.array_equal(given, ml0):
+                        sh.violation("C06:forms:stop:argument-array-modified:usual-form",
+                                     f"criteria({alpha}, {mt}, {rmse}) left ml={given.tolist()}", None)
+                    for mf, af, rf in combos:
+                        m, a, r = vector_form(mt, mf), scalar_form(alpha, af), scalar_form(rmse, rf)
+                        if m is None or a is None or r is None:
+                            sh.count("form_cannot_hold_the_values")
+                            continue
+                        label = _label(means=mf, alpha=af, rmse=rf)
+                        snaps = (_snapshot(m), _snapshot(a), _snapshot(r))
+                        try:
+                            with np.errstate(all="ignore"):
+                                verdict = bool(crit.criteria(a, m, r))
+                        except Exception as e:  # noqa: BLE001
+                            if mf in LENIENT_MEAN_FORMS:
+                                sh.count("form_rejected_by_the_tree:" + label)
+                            else:
+                                sh.violation(f"C06:forms:stop:raises:{label}",
+                                             f"criteria({a!r}, {m!r}, {r!r}) raises {type(e).__name__}: {e}; the usual form gives {usual}", None)
+                            continue
+                        sh.count("evaluations")
+                        sh.cls("forms:stop:" + label)
+                        if verdict != usual:
+                            est, dom = giles_estimate(ml0, alpha)
+                            if verdict and not (est <= left * rmse * (1 + 1e-6)):
+                                sh.violation(f"C06:forms:stop:accepts-a-bias-estimate-above-the-tolerance:{label}",
+                                             f"criteria({a!r}, {m!r}, {r!r}) is True: bias estimate {est:.6g} > {left * rmse:.6g} = "
+                                             f"sqrt(rmse^2 - variance share); the usual form (float64 array, floats) rejects", {"share": share})
+                            else:
+                                sh.violation(f"C06:forms:stop:verdict-differs-from-the-usual-form:{label}",
+                                             f"criteria({a!r}, {m!r}, {r!r}) is {verdict}, the usual form (float64 array, floats) gives {usual}", None)
+                        if not (_unchanged(m, snaps[0]) and _unchanged(a, snaps[1]) and _unchanged(r, snaps[2])):
+                            sh.violation(f"C06:forms:stop:argument-array-modified:{label}",
+                                         f"criteria was handed ({snaps[1]!r}, {snaps[0]!r}, {snaps[2]!r}) and left ({a!r}, {m!r}, {r!r})", None)
+            sh.outcome((alpha, rmse, accepted))
+    sh.nontriv()
+    if case["alpha"] == 1:
+        sh.sample({"sub": "forms", "part": "stop", "combinations_of_forms": len(combos), "accepted_in_usual_form": accepted})
+
+
+def _forms_engine(sh, case):
+    """The public entry points of a pricing (ConvergenceRates, ConfigurationMultiLevel, Engine.price) with their numbers in
+    other forms, and with the pricing run on a copy of the configuration: same run as in the usual form."""
+    sigs = set()
+    for rates in case["rates"]:
+        for rmse in case["rmses"]:
+            for sd in case["sds"]:
+                for (L0, N0) in case["starts"]:
+                    base = scenario(case["a"], None, rates=rates, rmse=rmse, sd=sd, L0=L0, Lmax=6, N0=N0)
+                    _, _, ref = price_step(sh, "forms", ":engine:usual-form", base, "explicit")
+                    sigs.add(ref)
+                    sh.outcome(ref[:3] if ref else None)
+                    for form in ENGINE_FORMS:
+                        sc = dict(base, form=form)
+                        try:
+                            _, _, sig = price_step(sh, "forms", f":engine:{form}", sc, "explicit")
+                        except C5.Horizon:
+                            raise
+                        except Exception as e:  # noqa: BLE001
+                            sh.violation(f"C06:forms:engine:raises:{rates}:{form}",
+                                         f"pricing {sc} raises {type(e).__name__}: {e}; the usual form returns {ref}", None)
+                            continue
+                        sh.cls("forms:engine:" + form)
+                        if not same_signature(sig, ref):
+                            sh.violation(f"C06:forms:engine:pricing-differs-from-the-usual-form:{rates}:{form}",
+                                         f"(L, Nl, converged, bias tests, weak rates) = {sig}; with Python floats / ints and the original "
+                                         f"configuration: {ref}", {"scenario": sc})
+    sh.states += len(sigs)
+    if len(sigs) >= 2:
+        sh.nontriv()
+    if case["a"] == 1.0:
+        sh.sample({"sub": "forms", "part": "engine", "case": case, "distinct_runs": len(sigs)})
